@@ -85,6 +85,11 @@ func (fr *Frame) invoke(in *ssa.Call) *GVal {
 		ex.addFact(ex.typeFacts(r, types.Typ[types.String]))
 		return &GVal{T: r, Typ: in.Type()}
 	}
+	if m == "Kind" && recv.S == SVal {
+		// reflect.Type is modelled as VInt(kind) (see reflect.TypeOf); a nil Type panics
+		fr.oblige("safe", "nil-reflect.Type", safetyProps, VIs("VInt", recv), in.Pos())
+		return &GVal{T: VIntOf(recv), Typ: in.Type()}
+	}
 	ex.unsupp("interface method call %s", m)
 	return fr.havocResult(in.Type(), m)
 }
